@@ -139,6 +139,10 @@ struct SubInst {
     req_push: Option<PushReq>,
     req_dl: i32,
     c12_checked: bool,
+    /// message -> event index at which its current lease's delivery (or its acknowledgement's
+    /// return) was observed; a later-observed event whose call began before that index is not
+    /// ordered after it
+    state_seen: HashMap<u64, usize>,
     /// ack id -> message of the lease it was issued for (may be stale; always re-checked)
     lease_by_ack: HashMap<String, u64>,
     obligations: HashSet<u64>,
@@ -389,9 +393,12 @@ impl<'a> Model<'a> {
                 self.rep.feat.redelivered_with_attrs_or_binary = true;
             }
         }
+        // responses are observed in an order that need not be the order of the hand-outs: a
+        // delivery whose call began before the previous state was observed is not ordered after it
+        let unordered = self.subs[si].state_seen.get(&mkey).map(|seen| lo_idx < *seen).unwrap_or(false);
         match prev {
             Some(Ms::Leased { lo, hi: _, modified, maybe_gone, maybe_acked, ack, .. }) => {
-                if now < lo && !maybe_gone && !maybe_acked {
+                if now < lo && !maybe_gone && !maybe_acked && !unordered {
                     let props: &[&str] = if modified { &["C03", "C05"] } else { &["C03", "C04"] };
                     self.v(
                         "delivered_while_leased",
@@ -405,6 +412,7 @@ impl<'a> Model<'a> {
                     self.rep.feat.expiry_redeliveries += 1;
                 }
             }
+            Some(Ms::Acked) if unordered => {}
             Some(Ms::Acked) => {
                 self.v("delivered_after_ack", &["C02"], format!("message {} delivered again on {} (ack {}) after its acknowledgement had returned", r.msg_id, self.subs[si].name, r.ack_id));
             }
@@ -443,6 +451,12 @@ impl<'a> Model<'a> {
                 }
             }
         }
+        if unordered {
+            // which of the two hand-outs is the current one is not known
+            maybe_gone = true;
+            lo = lo.min(now);
+        }
+        self.subs[si].state_seen.insert(mkey, idx);
         self.subs[si].lease_by_ack.insert(r.ack_id.clone(), mkey);
         self.subs[si].msgs.insert(mkey, Ms::Leased { ack: r.ack_id.clone(), lo, hi, modified: false, maybe_gone, maybe_acked, hi_known: hi });
     }
@@ -546,12 +560,22 @@ impl<'a> Model<'a> {
     }
 
     fn apply_ack_return(&mut self, snap: &[(usize, u64, bool, bool)], ids: &[String]) {
+        let mut acked_now: Vec<(usize, u64)> = Vec::new();
+        let idx = self.idx;
+        self.apply_ack_return_inner(snap, ids, &mut acked_now);
+        for (si, k) in acked_now {
+            self.subs[si].state_seen.insert(k, idx);
+        }
+    }
+
+    fn apply_ack_return_inner(&mut self, snap: &[(usize, u64, bool, bool)], ids: &[String], acked_now: &mut Vec<(usize, u64)>) {
         for (si, k, live, window) in snap {
             if let Some(st) = self.subs[*si].msgs.get_mut(k) {
                 if let Ms::Leased { ack, maybe_gone, .. } = st {
                     if ids.contains(ack) {
                         if *live && !*maybe_gone {
                             *st = Ms::Acked;
+                            acked_now.push((*si, *k));
                             self.rep.feat.acks_effective += 1;
                         } else if *window || *maybe_gone {
                             *st = Ms::Limbo;
@@ -1068,6 +1092,7 @@ impl<'a> Model<'a> {
                             req_push: push.clone(),
                             req_dl: *dl,
                             c12_checked: false,
+                            state_seen: HashMap::new(),
                             lease_by_ack: HashMap::new(),
                             obligations: HashSet::new(),
                             mutations: Vec::new(),
